@@ -134,6 +134,7 @@ type World struct {
 	rmCookie   map[string]string // hash -> cookie value (when seen)
 
 	T0      time.Time // reference instant for TOTP codes of this world
+	needPre bool      // the next request must be preceded by a fresh projection
 	smsTick map[string]int    // browser -> abstract tick at which sms_last was written
 	smsSeen map[string]string // browser -> sms_last value as last written by the harness/library
 	junkN   int
@@ -597,10 +598,11 @@ type WorldSnap struct {
 	ct, rt, tt, otp, rc, sc, os, ts, rm, sec int
 	smsTick                                  map[string]int
 	smsSeen                                  map[string]string
+	t0                                       time.Time
 }
 
 func (w *World) Snapshot() WorldSnap {
-	s := WorldSnap{in: w.In.Snapshot(), now: w.Now, ct: len(w.ct), rt: len(w.rt), tt: len(w.tt), otp: len(w.otp), rc: len(w.rc),
+	s := WorldSnap{in: w.In.Snapshot(), now: w.Now, t0: w.T0, ct: len(w.ct), rt: len(w.rt), tt: len(w.tt), otp: len(w.otp), rc: len(w.rc),
 		sc: len(w.sc), os: len(w.os), ts: len(w.ts), rm: len(w.rmHash), sec: len(w.Secrets),
 		smsTick: map[string]int{}, smsSeen: map[string]string{}}
 	for k, v := range w.smsTick {
@@ -615,6 +617,9 @@ func (w *World) Snapshot() WorldSnap {
 func (w *World) Restore(s WorldSnap) {
 	w.In.Restore(s.in)
 	w.Now = s.now
+	// the clock does not go back: if the TOTP period moved on since the snapshot, what it stored about
+	// last-used codes reads differently now, and the next step says so (pre-observation)
+	w.needPre = w.needPre || !s.t0.Equal(w.T0)
 	w.ct, w.rt, w.tt, w.otp, w.rc = w.ct[:s.ct], w.rt[:s.rt], w.tt[:s.tt], w.otp[:s.otp], w.rc[:s.rc]
 	w.sc, w.os, w.ts, w.rmHash, w.Secrets = w.sc[:s.sc], w.os[:s.os], w.ts[:s.ts], w.rmHash[:s.rm], w.Secrets[:s.sec]
 	w.smsTick, w.smsSeen = map[string]int{}, map[string]string{}
